@@ -108,6 +108,7 @@ impl Sys {
 }
 
 pub fn exec_memc(memc: &Arc<MemcStore>, op: &COp) -> String {
+    crate::watch::beat();
     let this = MemcRef { memc: memc.clone() };
     this.exec(op)
 }
@@ -370,6 +371,7 @@ pub fn drive(sched: &Arc<Sched>, n: usize, choose: &mut dyn FnMut(&[usize]) -> u
         }
         let i = choose(&runnable);
         order.push(i);
+        crate::watch::beat();
         st.grant = Some(i);
         sched.cv.notify_all();
         drop(st);
@@ -441,7 +443,7 @@ pub fn run_controlled(case: &ConcCase, choose: &mut dyn FnMut(&[usize]) -> usize
 }
 
 /// Outcome of one sequential order (no hook, one thread), CAS numbers stripped.
-fn strip(r: &str) -> String {
+pub fn strip(r: &str) -> String {
     let p: Vec<&str> = r.split(':').collect();
     match p[0] {
         "hit" => format!("hit:{}:{}", p[1], p[2]),
@@ -671,6 +673,7 @@ pub fn run_cases(seed: u64, cases: usize, flavor: &str, fixed: Vec<(ConcCase, Ve
             Some((cs, sc)) => (cs, Some(sc)),
             None => (gen_case(&mut rng, format!("k-{}-{}-{}", flavor, seed, c), flavor), None),
         };
+        crate::watch::case_start(trace, obs, monitor, &case.id, &format!("CASE {} 1048576 none\n", case.id));
         let mut srng = Rng::new(seed.wrapping_mul(911).wrapping_add(c as u64));
         let mut pos = 0;
         let res = run_controlled(&case, &mut |runnable| match &fixed_sched {
